@@ -1,4 +1,4 @@
-\* quick: every history of <= 2 operations over a small alphabet
+\* thorough: every history of <= 3 operations over a small alphabet
 SPECIFICATION BehSpec
 CONSTANTS
   RepairedFind = TRUE
@@ -10,7 +10,7 @@ CONSTANTS
   Styles = {"lf", "mix"}
   MaxTextLines = 1
   MaxLines = 1000
-  MaxDepth = 2
+  MaxDepth = 3
   Alphabet = {}
 INVARIANTS EmitInv
 CHECK_DEADLOCK FALSE
